@@ -4,6 +4,7 @@ import itertools
 import json
 import math
 import random as _random
+import unicodedata
 import warnings
 
 import numpy as np
@@ -68,6 +69,34 @@ def coltype(kind):
     return {'KMixed': MixedColumn, 'KFloat': FloatColumn, 'KInt': IntColumn}[kind]
 
 
+def is_series(col):
+    from datamatrix._datamatrix._seriescolumn import _SeriesColumn
+    return isinstance(col, _SeriesColumn)
+
+
+def new_column(dm, name, kind, depth=None):
+    """an empty column of the given kind; KSeries: a SeriesColumn of the given depth (a payload next to the plain
+    columns: never a key, read on the Python side only)"""
+    if kind == 'KSeries':
+        from datamatrix import SeriesColumn
+        dm[name] = SeriesColumn(depth=int(depth))
+    else:
+        dm[name] = coltype(kind)
+
+
+def series_rows(col):
+    """the rows of a series column as lists of floats"""
+    a = np.asarray(col._seq, dtype=float)
+    if a.ndim != 2:
+        raise ValueError('series column with a %d-dimensional buffer' % a.ndim)
+    return [[float(x) for x in row] for row in a]
+
+
+def same_floats(a, b):
+    return len(a) == len(b) and all((x == y and math.copysign(1, x) == math.copysign(1, y)) or (x != x and y != y)
+                                    for x, y in zip(a, b))
+
+
 def kindname(col):
     from datamatrix import MixedColumn, FloatColumn, IntColumn
     t = type(col)
@@ -105,8 +134,11 @@ def val_lit(x, problems):
 
 
 def view(dm, problems):
+    """the plain columns, column-wise (series columns are read by series_view)"""
     out = []
     for name, col in dm.columns:
+        if is_series(col):
+            continue
         k = kindname(col)
         if k is None:
             problems.append('column %s has unexpected type %s' % (name, type(col).__name__))
@@ -123,10 +155,43 @@ def view_json(v):
     return [[n, k, [jv(x) for x in cells]] for n, k, cells in v]
 
 
+def series_view(dm):
+    """{name: (depth, rows)} of the series columns"""
+    return {name: (int(col.depth), series_rows(col)) for name, col in dm.columns if is_series(col)}
+
+
+def check_series_part(src_series, src_uid, part, problems, what):
+    """A series column that sits next to the plain columns travels with its rows: every row of a part holds, in every
+    series column of the source, the samples of the source row with the same uid (Python-side comparison)."""
+    if not src_series:
+        return
+    got = series_view(part)
+    if 'uid' not in part:
+        return
+    uids = [plain(u) for u in part['uid']]
+    for name, (depth, rows) in src_series.items():
+        if name not in got:
+            problems.append('%s lacks the series column %s' % (what, name))
+            continue
+        d, prows = got[name]
+        if d != depth or len(prows) != len(uids):
+            problems.append('%s: series column %s has depth %d / %d rows, expected depth %d / %d rows' % (
+                what, name, d, len(prows), depth, len(uids)))
+            continue
+        for u, prow in zip(uids, prows):
+            if u not in src_uid:
+                continue        # judged through the plain columns
+            if not same_floats(prow, rows[src_uid.index(u)]):
+                problems.append('%s: the row with uid %r holds %r in series column %s, the source row holds %r' % (
+                    what, u, prow, name, rows[src_uid.index(u)]))
+                break
+
+
 def snapshot(dm):
     return (len(dm), [int(r) for r in dm._rowid],
-            [(n, id(c), type(c).__name__, [repr(plain(x)) for x in c], [int(r) for r in c._rowid],
-              c._datamatrix is dm) for n, c in dm.columns])
+            [(n, id(c), type(c).__name__,
+              repr(np.asarray(c._seq).tolist()) if is_series(c) else [repr(plain(x)) for x in c],
+              [int(r) for r in c._rowid], c._datamatrix is dm) for n, c in dm.columns])
 
 
 def build(inp, trace=None):
@@ -140,8 +205,11 @@ def build(inp, trace=None):
     dm = DataMatrix(length=n)
     for c in cols:
         trace.append('column %s = %s' % (c['name'], c['kind']))
-        dm[c['name']] = coltype(c['kind'])
-        if n:
+        new_column(dm, c['name'], c['kind'], c.get('depth'))
+        if c['kind'] == 'KSeries':
+            for i, row in enumerate(c['cells']):
+                dm[c['name']][i] = [float.fromhex(x) for x in row]
+        elif n:
             dm[c['name']] = [pyobs.dec(x) for x in c['cells']]
     for new, old in inp.get('alias', []):
         trace.append('dm.%s = dm.%s' % (new, old))
@@ -169,14 +237,33 @@ def build(inp, trace=None):
 
 
 def apply_history(dm, hist, trace=None):
-    """In-place history on the table that is split / grouped afterwards: probes (split / unique / count, results
-    discarded) and mutations (dm.length, cell / slice / selection / Row assignment).  The source is read AFTER
+    """In-place history on the table that is split / grouped afterwards: probes (split / multi-column split / group /
+    keep_only / unique / count / name / a selection, results discarded) and mutations (dm.length, cell / slice /
+    selection / Row assignment, rename, row deletion, new column, column deletion).  The source is read AFTER
     the history, so the oracle judges the final operation against the table as it stands then."""
     from datamatrix import operations as ops
     trace = [] if trace is None else trace
+
+    def need(*names):
+        # a step that names a column the table does not have (any more) / a row it does not have is a malformed
+        # input description (shrinking produces them), never an observation
+        for nm in names:
+            if nm not in dm._cols:
+                raise HarnessInputError('history step %r names the column %r, which the table does not have' % (st, nm))
+
+    def need_row(i):
+        if not 0 <= i < len(dm._rowid):
+            raise HarnessInputError('history step %r addresses a row the table does not have' % (st,))
+
     for i, st in enumerate(hist):
         t = st['t']
         trace.append('hist[%d] %s' % (i, t if t != 'probe' else 'probe-' + st['what']))
+        need(*([st[f] for f in ('col', 'by', 'old') if f in st] + list(st.get('cols', []))
+               + ([st['name']] if t == 'delcol' else [])))
+        if t in ('setcell', 'setrow', 'delrow'):
+            need_row(st['i'])
+        if (t == 'rename' and st['new'] in dm._cols) or (t == 'newcol' and st['name'] in dm._cols):
+            raise HarnessInputError('history step %r: the column exists already' % (st,))
         if t == 'probe':
             col = dm[st['col']]
             if st['what'] == 'split':
@@ -187,6 +274,15 @@ def apply_history(dm, hist, trace=None):
                 col.count
             elif st['what'] == 'group':
                 ops.group(dm, by=[col])
+            elif st['what'] == 'split2':
+                # a multi-column split: fetches the sub-columns by NAME
+                list(ops.split(*[dm[c] for c in st['cols']]))
+            elif st['what'] == 'keep_only':
+                ops.keep_only(dm, *[dm[c] for c in st['cols']])
+            elif st['what'] == 'name':
+                col.name
+            elif st['what'] == 'select':
+                dm[st['col']] == pyobs.dec(st['ref'])
             else:
                 raise HarnessInputError(st)
         elif t == 'use':
@@ -219,6 +315,22 @@ def apply_history(dm, hist, trace=None):
         elif t == 'setrow':
             row = dm[st['i']]
             row[st['col']] = pyobs.dec(st['v'])
+        elif t == 'rename':
+            dm.rename(st['old'], st['new'])
+        elif t == 'delrow':
+            del dm[st['i']]
+        elif t == 'newcol':
+            new_column(dm, st['name'], st['kind'], st.get('depth'))
+            if st['kind'] == 'KSeries':
+                for i in range(len(dm)):
+                    dm[st['name']][i] = [float.fromhex(x) for x in st['v']]     # the same samples in every row
+            elif len(dm):
+                dm[st['name']] = pyobs.dec(st['v'])
+        elif t == 'delcol':
+            if st.get('how') == 'object':
+                del dm[dm[st['name']]]
+            else:
+                del dm[st['name']]
         else:
             raise HarnessInputError(st)
 
@@ -273,6 +385,21 @@ class C14:
             'map object, iterator, reversed, dict values view, deque, one column, None; a by-column given twice), '
             'split arguments unpacked from one-shot iterables -- half of all group cases, and all forms on fixed '
             'tables with 0-3 by-columns (a dict keys view / set of columns cannot be built: columns are unhashable). '
+            'text keys that differ only in their unicode normal form (NFC vs NFD spellings of accents, Hangul syllable '
+            'vs jamo, combining marks in another order, Angstrom / Ohm sign vs letter), compatibility form (ligature, '
+            'fullwidth letter, micro sign vs Greek mu, superscript digit, no-break / zero-width space), case (sharp s, '
+            'dotted / dotless i) or surrounding blanks, drawn cluster-wise so that the twins meet in one column, alone '
+            'and next to other keys, in split, split with values (references: every other spelling of an occurring '
+            'text), multi-column split and group, verbatim presets and a share of every random family; '
+            'ONE table object used twice: a first judged call (split, multi-column split, split with values, group), '
+            'optional further uses (multi-column split, keep_only, name, selection, unique; discarded), then in-place '
+            'changes -- rename of a key column / of another column, dm.length grow, shrink-and-grow, row deletion, '
+            'new column (plain or series), column deletion by name / by object, cell / slice / Row / selection '
+            'writes into a key -- then a second judged call by the (renamed) key columns; every kind of change '
+            'directed, with and without a SeriesColumn next to the plain columns (its rows are compared on the '
+            'Python side: every row of every part holds the samples of the source row with the same uid; group '
+            'leaves it out), and the first use also as a discarded probe; both calls of such a case are judged '
+            '(oracle and model terms are conjunctions); '
             'Every implementation call of a case (construction, derivation, history, reading the source, the '
             'call, consuming the generator, reading every part / group, the after-snapshot) runs inside one '
             'guard: an exception is an observation of that case (pyfail naming the step), judged against the '
@@ -284,7 +411,9 @@ class C14:
         'Coq 8.16.1 kernel (coqc; vm_compute for evaluating cases; no native_compute)',
         'translator /verif/translate/gen_splitgroup.py (ast -> Gen/KSplitGroup.v) incl. its pinned fragments of '
         'operations.split/group, BaseColumn._compare/_compare_value/_compare_nan/unique/_getrowidkey, '
-        'NumericColumn._compare_value/unique/_getrowidkey, DataMatrix._selectrowid',
+        'NumericColumn._compare_value/unique/_getrowidkey/_rowid_argsort, BaseColumn.name, DataMatrix._selectrowid '
+        '(name and argsort are pinned as computed from / validated against the current state on every call: the '
+        'model has no cache that an in-place change could leave stale)',
         'harness/c14.py runner (reads parts/groups cell by cell, snapshot of the source) + Run/SC14.v, Run/RC14.v',
         'modelled, not verified: Python ==, hash/dict/set/tuple semantics, sorted(), numpy.unique / == / where / '
         'fancy indexing, argsort + searchsorted / Index.index as position lookup of a row id (bodies pinned, tied by '
@@ -293,8 +422,9 @@ class C14:
     assumptions = [
         'cells are normal forms of their column type (C05); MixedColumn keys do not contain NaN (property '
         'quantifier: NaN only for FloatColumn keys) -- see defect candidate in the level note',
-        'grouped (non-by) columns hold numbers only, as the documentation of group requires; series columns in the '
-        'source are outside the claim',
+        'grouped (non-by) columns hold numbers only, as the documentation of group requires; a series column in '
+        'the source is never a key; split must carry its rows along (compared on the Python side by uid), what '
+        'group does with it is outside the claim (it is left out with a warning)',
         'explicit split values: any int/str/None/float for Mixed keys, numbers for Float keys, integers and '
         'non-numeric objects for Int keys (coercions of other references belong to C02)',
         'group refinement theorem (C14_model_group_refines): premise wf_group_b (distinct row ids, columns as long '
@@ -318,6 +448,18 @@ class C14:
         if inp.get('op') not in ('split', 'splitv', 'group', 'bad_split', 'bad_group'):
             raise HarnessInputError('unknown operation %r' % (inp.get('op'),))
         names = [c['name'] for c in inp['cols']] + [a[0] for a in inp.get('alias', [])]
+        first = inp.get('first')
+        if first is not None:
+            if first.get('op') not in ('split', 'splitv', 'group') or not isinstance(first.get('keys'), list):
+                raise HarnessInputError('malformed first call %r' % (first,))
+            if first['op'] != 'group' and not first['keys']:
+                raise HarnessInputError('split needs a key column')
+            for k in first['keys']:
+                if k not in names:
+                    raise HarnessInputError('key column %r of the first call is not a column of the input' % (k,))
+        # names that the in-place history introduces
+        names = names + [h['new'] for h in inp.get('hist', []) if h.get('t') == 'rename'] \
+            + [h['name'] for h in inp.get('hist', []) if h.get('t') == 'newcol']
         for k in inp['keys']:
             if k not in names:
                 raise HarnessInputError('key column %r is not a column of the input' % (k,))
@@ -343,9 +485,13 @@ class C14:
             raise
         except Exception as e:      # noqa: BLE001
             where = st['stage'] + ((' (' + st['trace'][-1] + ')') if st['trace'] and st['stage'].startswith('building') else '')
+            if st['stage'].startswith('first call') and inp.get('first'):
+                op_now = inp['first']['op']
+            else:
+                op_now = inp['op']
             expect = {'bad_split': 'split(col, col, value) raises ValueError from the call itself',
                       'bad_group': 'group by a column of another DataMatrix raises ValueError from the call itself'
-                      }.get(inp['op'], '%s of this input succeeds' % ('group' if inp['op'] == 'group' else 'split'))
+                      }.get(op_now, '%s of this input succeeds' % ('group' if op_now == 'group' else 'split'))
             return self._result(inp, st, oracle='true', model='true',
                               observed={'raised': pyobs.exn_name(e), 'while': where, 'message': str(e)[:200]},
                               problems=['%s raised %s: %s -- the property says that %s' % (
@@ -362,14 +508,12 @@ class C14:
             'oracle': oracle, 'model': model,
             'nontrivial': st['nparts'] >= 2,
             'sig': json.dumps([op, inp['keys'], inp['cols'], inp.get('order'), inp.get('values'), inp.get('by_form'),
-                               inp.get('hist'), inp.get('alias')],
+                               inp.get('hist'), inp.get('alias'), inp.get('first')],
                               sort_keys=True),
             'tags': st['tags'] + list(extra_tags),
         }
 
     def _run(self, inp, st):
-        from datamatrix import DataMatrix, operations as ops
-        from datamatrix._datamatrix._seriescolumn import _SeriesColumn
         problems = Problems()
         op = inp['op']
         tags = st['tags']
@@ -378,14 +522,46 @@ class C14:
         if inp.get('hist'):
             tags.append('hist:' + '+'.join(h['t'] if h['t'] != 'probe' else 'probe-' + h['what'] for h in inp['hist']))
         kinds_present = set(c['kind'] for c in inp['cols'])
+        if 'KSeries' in kinds_present:
+            tags.append('cols:series')
         for k in inp['keys']:
             kk = [c for c in inp['cols'] if c['name'] == k]
             tags.append('key:' + (kk[0]['kind'] if kk else '?'))
-        if 'KMixed' in kinds_present and len(kinds_present) > 1:
+        if 'KMixed' in kinds_present and len(kinds_present - {'KSeries'}) > 1:
             tags.append('cols:mixed+numeric')
-        dm = build(inp, st['trace'])
-        st['stage'] = 'reading the source'
+        first = inp.get('first')
+        if first is None:
+            dm = build(inp, st['trace'])
+            oracle, model, observed = self._judge(dm, inp, st, problems, '')
+        else:
+            # the same table object: a first judged call, in-place changes, the judged call
+            tags.append('first:' + first['op'])
+            dm = build(dict(inp, hist=[]), st['trace'])
+            o1, m1, obs1 = self._judge(dm, first, st, problems, 'first call: ')
+            st['stage'] = 'building the source: in-place changes after the first call'
+            apply_history(dm, inp.get('hist', []), st['trace'])
+            o2, m2, obs2 = self._judge(dm, inp, st, problems, 'second call: ')
+            oracle = 'andb (%s) (%s)' % (o1, o2)
+            model = 'andb (%s) (%s)' % (m1, m2)
+            observed = {'first': obs1, 'second': obs2}
+        return self._result(inp, st, oracle, model, observed, problems)
+
+    def _judge(self, dm, inp, st, problems, pre):
+        """one judged call (inp: op, keys, values, by_form, alias) on the table as it stands: reads the source, calls,
+        reads every part / the grouped table, compares the source snapshot -> (oracle term, model term, observed)"""
+        from datamatrix import DataMatrix, operations as ops
+        from datamatrix._datamatrix._seriescolumn import _SeriesColumn
+        op = inp['op']
+        tags = st['tags']
+        for k in inp['keys']:
+            if k not in dm._cols:
+                raise HarnessInputError('%skey column %r is not a column of the table at this point' % (pre, k))
+        st['stage'] = pre + 'reading the source'
         src = view(dm, problems)
+        src_series = series_view(dm)
+        src_uid = [plain(u) for u in dm['uid']] if 'uid' in dm else []
+        if len(set(src_uid)) != len(src_uid):
+            src_series = {}
         rid = [int(r) for r in dm._rowid]
         st['src'], st['rid'] = src, rid
         tags.extend(['n=%d' % len(dm), rid_shape(rid)])
@@ -399,9 +575,9 @@ class C14:
         oracle = model = 'true'
         observed = None
         if op == 'split':
-            st['stage'] = 'split (call and consuming the generator)'
+            st['stage'] = pre + 'split (call and consuming the generator)'
             res = list(ops.split(*split_args(dm, inp['keys'], inp.get('by_form'))))
-            st['stage'] = 'reading the parts of split'
+            st['stage'] = pre + 'reading the parts of split'
             obs = []
             for item in res:
                 if not isinstance(item, tuple) or len(item) != len(inp['keys']) + 1 \
@@ -409,35 +585,37 @@ class C14:
                     problems.append('split yielded %r, expected (value.., DataMatrix)' % (item,))
                     continue
                 obs.append(([plain(v) for v in item[:-1]], view(item[-1], problems)))
-            st['nparts'] = len(obs)
+                check_series_part(src_series, src_uid, item[-1], problems, pre + 'the part for %r' % (item[:-1],))
+            st['nparts'] = max(st['nparts'], len(obs))
             obs_l = L.lst('(%s, %s)' % (L.lst(val_lit(v, problems) for v in vs), view_lit(pv, problems))
                           for vs, pv in obs)
             oracle = 'split_oracle %s %s %s' % (src_l, names_l, obs_l)
             model = 'split_model %s %s %s %s' % (rid_l, src_l, names_l, obs_l)
             observed = [[[jv(v) for v in vs], view_json(pv)] for vs, pv in obs]
         elif op == 'splitv':
-            st['stage'] = 'split with values (call and consuming the generator)'
+            st['stage'] = pre + 'split with values (call and consuming the generator)'
             values = [pyobs.dec(v) for v in inp['values']]
             res = list(ops.split(dm[inp['keys'][0]], *values))
-            st['stage'] = 'reading the parts of split'
+            st['stage'] = pre + 'reading the parts of split'
             obs = []
-            for item in res:
+            for j, item in enumerate(res):
                 if not isinstance(item, DataMatrix):
                     problems.append('split with values yielded %r, expected a DataMatrix' % (item,))
                     continue
                 obs.append(view(item, problems))
-            st['nparts'] = len([o for o in obs if o and o[0][2]])
+                check_series_part(src_series, src_uid, item, problems, pre + 'part %d' % j)
+            st['nparts'] = max(st['nparts'], len([o for o in obs if o and o[0][2]]))
             vals_l = L.lst(val_lit(v, problems) for v in values)
             obs_l = L.lst(view_lit(pv, problems) for pv in obs)
             oracle = 'splitv_oracle %s %s %s %s' % (src_l, L.string(inp['keys'][0]), vals_l, obs_l)
             model = 'splitv_model %s %s %s %s %s' % (rid_l, src_l, L.string(inp['keys'][0]), vals_l, obs_l)
             observed = [view_json(pv) for pv in obs]
         elif op == 'group':
-            st['stage'] = 'group (the call)'
+            st['stage'] = pre + 'group (the call)'
             if inp.get('by_form'):
                 tags.append('by:' + inp['by_form'])
             cm = ops.group(dm, make_by(dm, inp['keys'], inp.get('by_form')))
-            st['stage'] = 'reading the grouped table'
+            st['stage'] = pre + 'reading the grouped table'
             if not isinstance(cm, DataMatrix):
                 problems.append('group returned %r, expected a DataMatrix' % (cm,))
                 cm = DataMatrix(length=0)
@@ -460,10 +638,11 @@ class C14:
                         problems.append('grouped column %s has unexpected type %s' % (name, type(col).__name__))
                         k = 'KMixed'
                     bycols.append((name, k, [plain(x) for x in col]))
-            extra = [n for n in cm.column_names if n not in [s[0] for s in src]]
+            # a series column of the source is outside the claim (group leaves it out with a warning)
+            extra = [n for n in cm.column_names if n not in [s[0] for s in src] and n not in src_series]
             if extra:
                 problems.append('grouped table has extra columns %r' % extra)
-            st['nparts'] = len(cm)
+            st['nparts'] = max(st['nparts'], len(cm))
             obs_l = '{| g_n := %s; g_by := %s; g_series := %s |}' % (
                 L.nat(len(cm)), view_lit(bycols, problems),
                 L.lst('(%s, %s, %s)' % (L.string(n), L.nat(d), L.lst(L.lst(L.fl(x) for x in row) for row in rows))
@@ -491,11 +670,11 @@ class C14:
                 problems.append('group by a column of another DataMatrix did not raise ValueError: %r' % (observed,))
         else:
             raise HarnessInputError(op)
-        st['stage'] = 'reading the source after the call'
+        st['stage'] = pre + 'reading the source after the call'
         after = snapshot(dm)
         if after != before:
-            problems.append('the source DataMatrix was modified by %s' % op)
-        return self._result(inp, st, oracle, model, observed, problems)
+            problems.append('%sthe source DataMatrix was modified by %s' % (pre, op))
+        return oracle, model, observed
 
     # ------------------------------------------------------------------ generator
     POOLS = {
@@ -510,9 +689,12 @@ class C14:
         'fnear': [1.0, 2.5, 0.0, -1.0, NAN, INF, 0.5, 12.0],
         'mnear': [1, 2.5, 0, -1, 'a', None, 0.5, 12],
         'inear': [0, 1, -1, 2 ** 40],
+        # ordinary text next to the clusters of UNI (filled in below)
+        'utext': ['a', 'b', '', 'cafe', 'z', '\u00e9t\u00e9'],
     }
     FLAVOUR_KIND = {'text': 'KMixed', 'mnum': 'KMixed', 'mint': 'KMixed', 'mhet': 'KMixed', 'mhetf': 'KMixed',
-                    'float': 'KFloat', 'int': 'KInt', 'fnear': 'KFloat', 'mnear': 'KMixed', 'inear': 'KInt'}
+                    'float': 'KFloat', 'int': 'KInt', 'fnear': 'KFloat', 'mnear': 'KMixed', 'inear': 'KInt',
+                    'utext': 'KMixed'}
     # clusters of DISTINCT values that are nearly equal: adjacent doubles, a few ulps apart, relative distance
     # 1e-12 / 1e-10 / 1e-7 / 5e-6, absolute distance below 1e-8 around zero, integers beyond 2**53 that share
     # their nearest double.  Every value of a cluster is a key of its own.
@@ -535,6 +717,28 @@ class C14:
         'inear': [[2 ** 53, 2 ** 53 + 1, 2 ** 53 + 2], [-2 ** 53, -2 ** 53 - 1], [2 ** 62, 2 ** 62 + 1],
                   [10 ** 16, 10 ** 16 + 1]],
     }
+    # clusters of DISTINCT text values that look alike / are equal after a unicode normalisation (NFC / NFD:
+    # composed vs decomposed accents, Hangul syllable vs jamo, combining marks in another order, Angstrom / Ohm sign
+    # vs the letter; NFKC / NFKD: ligature, fullwidth form, micro sign vs Greek mu, no-break space; case folding:
+    # sharp s, dotted / dotless i; surrounding blanks).  Every value of a cluster is a key of its own.
+    UNI = [
+        ['caf\u00e9', 'cafe\u0301', 'cafe'],
+        ['\u00c5', 'A\u030a', '\u212b', 'A'],
+        ['\u00f1', 'n\u0303', 'n'],
+        ['\uac00', '\u1100\u1161'],
+        ['q\u0307\u0323', 'q\u0323\u0307'],
+        ['\u1e69', 's\u0323\u0307', '\u1e63\u0307', 's\u0307\u0323'],
+        ['\u2126', '\u03a9'],
+        ['\ufb01', 'fi', 'FI'],
+        ['\uff41', 'a', 'A'],
+        ['\u00b5', '\u03bc', '\u039c'],
+        ['\u00df', 'ss', '\u1e9e', 'SS'],
+        ['i\u0307', '\u0130', 'i', '\u0131', 'I'],
+        ['a', 'a ', ' a', 'a\u00a0', 'a\u200b'],
+        ['\u00e9', 'e\u0301', '\u00e8', 'e'],
+        ['x\u00b2', 'x2', 'x\u2082'],
+    ]
+    NEAR['utext'] = UNI
     # rows of key combinations that coincide under concatenation / addition
     PRESETS = [
         (['text', 'text'], [('a', 'bc'), ('ab', 'c'), ('abc', ''), ('', 'abc')]),
@@ -558,6 +762,19 @@ class C14:
         (['mnear', 'fnear'], [(0.3, 1.0), (0.1 + 0.2, 1.0), (0.3, math.nextafter(1.0, 2.0)), (10 ** 16, 0.0),
                               (10 ** 16 + 1, 0.0), (10 ** 16, -5e-324)]),
         (['inear'], [(2 ** 53,), (2 ** 53 + 1,), (2 ** 53 + 2,), (1,)]),
+        # text keys that differ only in their unicode normal form / compatibility form / case, alone, next to
+        # other keys, as first and as second key column
+        (['utext'], [('caf\u00e9',), ('tea',), ('cafe\u0301',), ('',), (' ',), ('cafe',)]),
+        (['utext'], [('\u00c5',), ('A\u030a',), ('\u212b',), ('\ufb01',), ('fi',), ('\u00b5',), ('\u03bc',),
+                     ('\uff41',), ('a',)]),
+        (['int', 'utext'], [(1, 'caf\u00e9'), (1, 'cafe\u0301'), (2, 'cafe\u0301'), (2, 'caf\u00e9'), (1, 'tea'),
+                            (2, '\u00b5'), (2, '\u03bc')]),
+        (['utext', 'text'], [('\u00f1', 'a'), ('n\u0303', 'a'), ('\u00f1', 'b'), ('n\u0303', 'b'), ('n', 'a'),
+                             ('\uac00', 'a'), ('\u1100\u1161', 'a')]),
+        (['utext', 'utext'], [('\u00e9', 'e\u0301'), ('e\u0301', '\u00e9'), ('\u00e9', '\u00e9'),
+                              ('e\u0301', 'e\u0301'), ('e', '\u0301')]),
+        (['float', 'utext', 'int'], [(1.0, '\ufb01', 1), (1.0, 'fi', 1), (NAN, '\ufb01', 1), (NAN, 'fi', 1),
+                                     (1.0, '\uff41', 2), (1.0, 'a', 2)]),
     ]
 
     def _payload(self, rng, n, numeric):
@@ -587,7 +804,7 @@ class C14:
             steps.append({'t': 'sort', 'by': rng.choice(keys)})
         return steps, n
 
-    ALL_FLAVOURS = ['text', 'text', 'mint', 'mnum', 'mhet', 'mhet', 'mhetf', 'float', 'float', 'int']
+    ALL_FLAVOURS = ['text', 'text', 'mint', 'mnum', 'mhet', 'mhet', 'mhetf', 'float', 'float', 'int', 'utext']
 
     def _pool(self, rng, f):
         """the alphabet of one key column: 1-5 values of the flavour's pool; for the nearly-equal flavours one or two
@@ -601,14 +818,15 @@ class C14:
         return pool
 
     def _table(self, rng, maxn, nkeys_choices, near=False):
-        """-> (cols, keys) base table; near: at least one key column holds nearly-equal distinct values"""
+        """-> (cols, keys) base table; near: at least one key column holds nearly-equal distinct values (True: numbers;
+        'uni': text that differs only in its unicode normal / compatibility form or case)"""
         if near:
             nk = max(1, rng.choice(nkeys_choices))
             n = rng.randint(2, maxn) if rng.random() < 0.9 else rng.randint(0, maxn)
-            flav = [rng.choice(['fnear', 'fnear', 'fnear', 'mnear', 'inear'] if rng.random() < 0.6 else self.ALL_FLAVOURS)
-                    for _ in range(nk)]
-            if not any(f in self.NEAR for f in flav):
-                flav[rng.randrange(nk)] = rng.choice(['fnear', 'fnear', 'mnear'])
+            special = ['utext'] if near == 'uni' else ['fnear', 'fnear', 'fnear', 'mnear', 'inear']
+            flav = [rng.choice(special if rng.random() < 0.6 else self.ALL_FLAVOURS) for _ in range(nk)]
+            if not any(f in special for f in flav):
+                flav[rng.randrange(nk)] = rng.choice(special if near == 'uni' else ['fnear', 'fnear', 'mnear'])
             keycols = []
             for j, f in enumerate(flav):
                 pool = self._pool(rng, f)
@@ -635,6 +853,10 @@ class C14:
                                 'cells': [pyobs.enc(rng.choice(pool)) for _ in range(n)]})
         return keycols, [c['name'] for c in keycols], n
 
+    SPELLINGS = [lambda x: unicodedata.normalize('NFC', x), lambda x: unicodedata.normalize('NFD', x),
+                 lambda x: unicodedata.normalize('NFKC', x), lambda x: unicodedata.normalize('NFKD', x),
+                 str.casefold, str.upper, str.lower, str.strip, lambda x: x + ' ']
+
     def _values(self, rng, keycol):
         """explicit values for split(col, v1, ...)"""
         kind = keycol['kind']
@@ -651,6 +873,11 @@ class C14:
             x = rng.choice(floats)
             extra = extra + [math.nextafter(x, INF), math.nextafter(x, -INF), x * (1 + 2.0 ** -50), x * (1 + 1e-12),
                              x * (1 - 1e-7), 0.3, 0.1 + 0.2]
+        # references next to a text that occurs: its other unicode spellings
+        texts = [x for x in present if type(x) is str and x]
+        if kind == 'KMixed' and texts:
+            x = rng.choice(texts)
+            extra = extra + [f(x) for f in self.SPELLINGS if f(x) != x][:6] + [y for cl in self.UNI if x in cl for y in cl]
         k = rng.randint(1, 5)
         vals = []
         for _ in range(k):
@@ -671,7 +898,8 @@ class C14:
         cols = keycols + self._payload(rng, n, numeric=(op == 'group'))
         mode = rng.choice(['none', 'none', 'select', 'shuffle', 'sort', 'select+shuffle', 'select+sort'])
         steps, _n = self._order(rng, n, keys, mode)
-        inp = {'op': op, 'cols': cols, 'keys': keys, 'order': steps, 'tags': ['near' if near else 'random']}
+        inp = {'op': op, 'cols': cols, 'keys': keys, 'order': steps,
+               'tags': ['unicode' if near == 'uni' else 'near' if near else 'random']}
         if op == 'splitv':
             inp['values'] = self._values(rng, keycols[0])
         if op == 'group':
@@ -934,6 +1162,188 @@ class C14:
             inp['values'] = inp['values'] + [pyobs.enc({'KMixed': '', 'KFloat': NAN, 'KInt': 0}[kind])]
         return inp
 
+    # ------------------------------------------------------------------ the same table used twice
+    CHANGES = ['rename-key', 'rename-key', 'rename-other', 'grow', 'grow', 'shrink-grow', 'delrow', 'newcol', 'delcol',
+               'write-key', 'write-key']
+
+    def _repeat_case(self, rng, maxn, change=None, series=None, uni=False):
+        """ONE table object: a first judged call (split / multi-column split / split with values / group), then
+        in-place changes (rename of a key column or of another column, grow, shrink-and-grow, row deletion, new
+        column, column deletion, cell writes into a key), then a second judged call by the (renamed) key columns;
+        with and without a SeriesColumn next to the plain columns."""
+        op1 = rng.choice(['split', 'split', 'splitv', 'group', 'group'])
+        op2 = rng.choice(['split', 'split', 'splitv', 'group', 'group'])
+        nk = rng.choice([1, 2, 2, 3])
+        if change == 'rename-key' and rng.random() < 0.8:
+            # calls that look columns up by NAME: group, split by several columns
+            op1, op2, nk = rng.choice(['split', 'group']), rng.choice(['split', 'group']), rng.choice([2, 2, 3])
+        grouped = 'group' in (op1, op2)
+        n = rng.randint(2, maxn) if rng.random() < 0.9 else rng.randint(0, maxn)
+        flavours = ['text', 'mint', 'mhet', 'float', 'int', 'int', 'utext' if uni or rng.random() < 0.3 else 'text']
+        keycols = []
+        for j in range(nk):
+            f = 'utext' if (uni and j == 0) else rng.choice(flavours)
+            pool = self._pool(rng, f)[:4]
+            keycols.append({'name': 'k%d' % j, 'kind': self.FLAVOUR_KIND[f],
+                            'cells': [pyobs.enc(rng.choice(pool)) for _ in range(n)]})
+        cols = keycols + self._payload(rng, n, numeric=grouped)
+        if grouped:     # grouped columns must hold numbers (also in rows that dm.length adds)
+            cols = [c for c in cols if c in keycols or c['kind'] != 'KMixed']
+        if series is None:
+            series = rng.random() < 0.5
+        if series:
+            d = rng.randint(1, 3)
+            cols.insert(rng.randint(0, len(cols)), {
+                'name': 's', 'kind': 'KSeries', 'depth': d,
+                'cells': [[float(rng.choice([0, 1, 2.5, -1, i + 0.25, NAN])).hex() for _ in range(d)] for i in range(n)]})
+        mode = rng.choice(['none', 'none', 'none', 'select', 'shuffle', 'sort', 'select+shuffle'])
+        steps, n = self._order(rng, n, [c['name'] for c in keycols], mode)
+        kind_of = dict((c['name'], c['kind']) for c in cols)
+        names = [c['name'] for c in keycols]      # current names of the key columns, in order
+        present = [c['name'] for c in cols]
+
+        def call(op, names_now, want=()):
+            """a call by some of the key columns (those of `want` among them); a grouped table keeps every text key
+            among the by-columns"""
+            ks = [k for k in names_now if k not in want]
+            rng.shuffle(ks)
+            ks = list(want) + ks
+            if op == 'splitv':
+                ks = ks[:1]
+            elif op == 'split':
+                ks = ks[:max(len(want), rng.choice([1, 2, 2, 3]))]
+                rng.shuffle(ks)
+            else:
+                must = [k for k in names_now if kind_of[k] == 'KMixed' or k in want]
+                opt = [k for k in ks if k not in must]
+                ks = must + opt[:rng.randint(0, len(opt))]
+                rng.shuffle(ks)
+            spec = {'op': op, 'keys': ks}
+            if op == 'splitv':
+                src = [c for c in keycols if c['name'] == origin[ks[0]]][0]
+                # values may also name the default cell of freshly added rows
+                spec['values'] = self._values(rng, src) + [pyobs.enc({'KMixed': '', 'KFloat': NAN, 'KInt': 0}[src['kind']])]
+            if op == 'group':
+                spec['by_form'] = self._by_form(rng, len(ks))
+            elif op == 'split' and rng.random() < 0.15:
+                spec['by_form'] = rng.choice(['gen', 'map', 'iter', 'reversed'])
+            return spec
+
+        origin = dict((k, k) for k in names)       # current name -> name in the base table
+        first = call(op1, names)
+        hist = []
+        renamed = []
+        # further uses of the table before it is changed (results discarded)
+        for _ in range(rng.choice([0, 0, 0, 1, 2])):
+            what = rng.choice(['split2', 'keep_only', 'name', 'select', 'group', 'split', 'unique'])
+            k = rng.choice(names)
+            st = {'t': 'probe', 'what': what, 'col': k}
+            if what in ('split2', 'keep_only'):
+                st['cols'] = rng.sample(names, min(len(names), rng.choice([1, 2, 2, 3]))) + (
+                    ['uid'] if what == 'keep_only' and rng.random() < 0.5 else [])
+            if what == 'select':
+                st['ref'] = [c for c in keycols if c['name'] == k][0]['cells'][0] if n else pyobs.enc(0)
+            hist.append(st)
+        extra = {'KMixed': ['zz', 5, None, 'a', '', 'cafe\u0301', 'caf\u00e9'], 'KFloat': [1.0, NAN, 7.5, 0.0, 0.3],
+                 'KInt': [1, 9, 0]}
+        fresh = iter(['r0', 'r1', 'r2', 'r3', 'kk', 'zz0', 'a0', 'condition'])
+        changes = [change] if change else []
+        while len(changes) < rng.choice([1, 1, 2, 3]):
+            changes.append(rng.choice(self.CHANGES))
+        rng.shuffle(changes)
+        for ch in changes:
+            if ch == 'rename-other' and not [x for x in present if x not in names and x != 'uid']:
+                ch = 'rename-key'
+            if ch == 'rename-key':
+                old = rng.choice(names)
+                new = next(fresh)
+                if rng.random() < 0.3:
+                    new = old + '_'         # sorts right after the old name
+                hist.append({'t': 'rename', 'old': old, 'new': new})
+                renamed = [x for x in renamed if x != old] + [new]
+                names[names.index(old)] = new
+                present[present.index(old)] = new
+                kind_of[new] = kind_of.pop(old)
+                origin[new] = origin.pop(old)
+            elif ch == 'rename-other':
+                old = rng.choice([x for x in present if x not in names and x != 'uid'])
+                new = next(fresh)
+                hist.append({'t': 'rename', 'old': old, 'new': new})
+                present[present.index(old)] = new
+                kind_of[new] = kind_of.pop(old)
+            elif ch in ('grow', 'shrink-grow'):
+                if ch == 'shrink-grow' and n:
+                    d = -rng.randint(1, min(n, 3))
+                    hist.append({'t': 'length', 'delta': d, 'uids': rng.sample(range(100, 200), n + 8)})
+                    n += d
+                d = rng.choice([1, 2, 3])
+                hist.append({'t': 'length', 'delta': d, 'uids': rng.sample(range(200, 300), n + d + 8)})
+                n += d
+                if rng.random() < 0.5:      # fill the key of the new rows
+                    k = rng.choice(names)
+                    src = [c for c in keycols if c['name'] == origin[k]][0]
+                    pool = [pyobs.dec(x) for x in src['cells']] + extra[src['kind']]
+                    hist.append({'t': 'setslice', 'col': k, 'a': n - d, 'b': n, 'v': pyobs.enc(rng.choice(pool))})
+            elif ch == 'delrow':
+                for _ in range(rng.choice([1, 1, 2])):
+                    if n:
+                        hist.append({'t': 'delrow', 'i': rng.randrange(n)})
+                        n -= 1
+            elif ch == 'newcol':
+                name = next(fresh)
+                kind = rng.choice(['KInt', 'KFloat'] if op2 == 'group' else ['KInt', 'KFloat', 'KMixed', 'KSeries'])
+                st = {'t': 'newcol', 'name': name, 'kind': kind}
+                if kind == 'KSeries':
+                    st['depth'] = rng.randint(1, 3)
+                    st['v'] = [float(rng.choice([0, 1.5, -2])).hex() for _ in range(st['depth'])]
+                else:
+                    st['v'] = pyobs.enc({'KInt': 7, 'KFloat': rng.choice([0.5, NAN]), 'KMixed': rng.choice(['w', 3])}[kind])
+                hist.append(st)
+                present.append(name)
+                kind_of[name] = kind
+            elif ch == 'delcol':
+                # a payload column, or a key column that the second call does not use
+                cands = [x for x in present if x != 'uid' and (x not in names or len(names) > 1)]
+                if cands:
+                    name = rng.choice(cands)
+                    hist.append({'t': 'delcol', 'name': name, 'how': rng.choice(['name', 'object'])})
+                    present.remove(name)
+                    if name in names:
+                        names.remove(name)
+                    renamed = [x for x in renamed if x != name]
+            elif ch == 'write-key':
+                k = rng.choice(names)
+                src = [c for c in keycols if c['name'] == origin[k]][0]
+                pool = [pyobs.dec(x) for x in src['cells']] + extra[src['kind']]
+                how = rng.choice(['setcell', 'setcell', 'setslice', 'setrow', 'setsel'])
+                if n == 0:
+                    how = 'setslice'
+                if how in ('setcell', 'setrow'):
+                    hist.append({'t': how, 'col': k, 'i': rng.randrange(n), 'v': pyobs.enc(rng.choice(pool))})
+                elif how == 'setslice':
+                    a = rng.randint(0, n)
+                    hist.append({'t': 'setslice', 'col': k, 'a': a, 'b': rng.randint(a, n), 'v': pyobs.enc(rng.choice(pool))})
+                else:
+                    hist.append({'t': 'setsel', 'col': k, 'by': k, 'ref': pyobs.enc(rng.choice(pool)),
+                                 'v': pyobs.enc(rng.choice(pool))})
+            else:
+                raise HarnessInputError(ch)
+        second = call(op2, names, renamed[-1:] if rng.random() < 0.8 else ())
+        inp = {'op': op2, 'cols': cols, 'keys': second['keys'], 'order': steps, 'first': first, 'hist': hist,
+               'tags': ['repeat'] + ['change:' + c for c in sorted(set(changes))] + (['unicode'] if uni else [])}
+        if rng.random() < 0.2:
+            # the first use as a discarded probe instead of a judged call
+            del inp['first']
+            probe = {'t': 'probe', 'col': first['keys'][0] if first['keys'] else 'uid',
+                     'what': {'split': 'split2', 'splitv': 'split', 'group': 'group'}[op1], 'cols': first['keys']}
+            if first['keys']:
+                inp['hist'] = [probe] + hist
+            inp['tags'] = inp['tags'] + ['first:probe']
+        for f in ('values', 'by_form'):
+            if f in second:
+                inp[f] = second[f]
+        return inp
+
     def generate(self, rng, tier, scale=1.0):
         cases = []
         quick = tier == 'quick'
@@ -1007,6 +1417,20 @@ class C14:
         for _ in range(int((110 if quick else 1200) * scale)):
             for op in ('split', 'split', 'splitv', 'group'):
                 cases.append(self.rerun(self._hist_case(rng, op, 8 if quick else 12)))
+        # text keys that differ only in their unicode normal form / compatibility form / case: every operation,
+        # 1-3 key columns, every derivation mode
+        for _ in range(int((40 if quick else 400) * scale)):
+            for op in ('split', 'splitv', 'group'):
+                cases.append(self.rerun(self._case(rng, op, maxn, near='uni')))
+        # the same table object used twice: a first judged call, in-place changes (every kind, with and without a
+        # SeriesColumn next to the plain columns), a second judged call
+        for change in sorted(set(self.CHANGES)):
+            for series in (False, True):
+                reps = (10 if quick else 60) if change in ('rename-key', 'grow') else (4 if quick else 30)
+                for _ in range(max(1, int(reps * scale))):
+                    cases.append(self.rerun(self._repeat_case(rng, 8 if quick else 12, change, series)))
+        for _ in range(int((120 if quick else 1200) * scale)):
+            cases.append(self.rerun(self._repeat_case(rng, 8 if quick else 12, uni=rng.random() < 0.15)))
         # malformed stream
         for _ in range(int((12 if quick else 100) * scale)):
             inp = self._case(rng, 'split', 6)
@@ -1038,6 +1462,25 @@ class C14:
             c = dict(inp)
             c['hist'] = inp['hist'][:i] + inp['hist'][i + 1:]
             yield c
+        # the first call: as a discarded probe, not at all, by fewer columns / values
+        first = inp.get('first')
+        if first is not None:
+            c = dict(inp)
+            del c['first']
+            if first['keys']:
+                c2 = dict(c)
+                c2['hist'] = [{'t': 'probe', 'col': first['keys'][0], 'cols': first['keys'],
+                               'what': {'split': 'split2', 'splitv': 'split', 'group': 'group'}[first['op']]}] \
+                    + list(inp.get('hist', []))
+                yield c2
+            yield c
+            if len(first['keys']) > 1:
+                for k in first['keys']:
+                    yield dict(inp, first=dict(first, keys=[x for x in first['keys'] if x != k]))
+            if first.get('by_form') in BY_FORMS_MULTI[1:]:
+                yield dict(inp, first=dict(first, by_form='list'))
+            if first.get('values') and len(first['values']) > 1:
+                yield dict(inp, first=dict(first, values=first['values'][:1]))
         # drop order steps
         for i in range(len(inp.get('order', []))):
             c = dict(inp)
@@ -1095,6 +1538,8 @@ class C14:
         hist = ''.join(' ' + (h['t'] if h['t'] != 'probe' else 'probe-' + h['what']) for h in inp.get('hist', []))
         form = inp.get('by_form')
         form = '[%s]' % form if form in BY_FORMS_MULTI[1:] else ''     # the list / one column / None: as before
+        if inp.get('first'):        # the same table used twice
+            hist = ' first-' + inp['first']['op'] + hist
         return '%s%s%s keys=%s rows=%d' % (inp['op'], form, (' after' + hist) if hist else '', ','.join(
             '%s:%s' % (c['kind'], json.dumps([x.get('v') for x in c['cells']], separators=(',', ':')))
             for c in inp['cols'] if c['name'] in inp['keys']), len(inp['cols'][0]['cells']) if inp['cols'] else 0)
